@@ -93,6 +93,9 @@ def ident(I, a):
     return (I.getattr(a, "symbol"), int(I.getattr(a, "isotope")) if iso else 0, int(I.getattr(a, "charge")))
 
 
+_NOTSET = object()
+
+
 def run(ctx):
     F = folder(ctx)
     rules = ebnf(ctx)
@@ -296,6 +299,37 @@ def run(ctx):
     ctx.check(not accepted, "R6", f"all {len(mal)} malformed strings (unknown symbol, undefined isotope or charge, brackets, counts, tags) raise, twice",
               f"{len(accepted)} malformed strings are accepted", site, sample={"strings": len(mal), "examples": mal[:6]})
     ctx.unit("malformed_strings", len(mal))
+
+    # ---- R9 a string denotes its composition every time it is read: nothing done to an earlier result shows in a later one ----
+    O_, H_ = w.element("O"), w.element("H")
+    saved_public = I.module_cache.get(("core", "PUBLIC_TABLE"), _NOTSET)
+    I.module_cache[("core", "PUBLIC_TABLE")] = w.table        # requests without table= go to the default table
+    for text, tkw in (("Fe2O3@5.2", {"table": w.table}), ("30wt% Fe2O3@5 // H2O@1", {"table": w.table}), ("H2O", {"table": w.table}),
+                      ("Fe2O3@5.2", {}), ("5g Fe2O3@5 // 50mL H2O@1", {})):
+        fa = I.call(fm, [text], dict(tkw))
+        d_before = I.getattr(fa, "density")
+        atoms_before = dict(I.getattr(fa, "atoms"))
+        I.setattr(fa, "density", sp.Integer(77))
+        I.setattr(fa, "name", "edited")
+        I.call(I.getattr(fa, "__iadd__"), [I.call(fm, [{H_: sp.Integer(40)}], {})], {})
+        fb = I.call(fm, [text], dict(tkw))
+        text = text if tkw else text + " [default table]"
+        ctx.check(fb is not fa, "R9", f"formula({text!r}) read twice gives two formula objects", "the second request returns the object handed out before", site, witness=text)
+        db = I.getattr(fb, "density")
+        same_d = (db is None and d_before is None) or (db is not None and d_before is not None and sp.simplify(sp.sympify(db) - sp.sympify(d_before)) == 0)
+        ctx.check(same_d, "R9", f"density of {text!r} read again after the first result was edited",
+                  f"density {_s(db)} instead of {_s(d_before)}: the earlier result's edits show in a later reading of the same string", site, witness=text)
+        ab = dict(I.getattr(fb, "atoms"))
+        same_a = set(ab) == set(atoms_before) and all(sp.simplify(sp.sympify(ab[k_]) - sp.sympify(atoms_before[k_])) == 0 for k_ in ab)
+        ctx.check(same_a, "R9", f"atoms of {text!r} read again after the first result was extended with +=",
+                  "the earlier result's += shows in a later reading of the same string", site, witness=text)
+        ctx.check(I.getattr(fb, "name") != "edited", "R9", f"name of {text!r} read again after the first result was renamed",
+                  "the earlier result's name shows in a later reading", site, witness=text)
+    if saved_public is _NOTSET:
+        I.module_cache.pop(("core", "PUBLIC_TABLE"), None)
+    else:
+        I.module_cache[("core", "PUBLIC_TABLE")] = saved_public
+    ctx.floor("R9", 20)
 
     # ---- R7 the grammar looks symbols up in its own table ---------------------------------------------------------
     w2, gram2 = build(ctx)
